@@ -1,7 +1,7 @@
 (** Property C10 - end of input. *)
 From Coq Require Import List NArith ZArith Bool.
 Import ListNotations.
-Require Import FlexV.Regex FlexV.Pat FlexV.Tokenize FlexV.Stream FlexV.StreamProofs.
+Require Import FlexV.Regex FlexV.Pat FlexV.Tokenize FlexV.Stream FlexV.StreamProofs FlexV.EofAssign.
 
 (** The <<EOF>> action runs only when no byte at all is left to tokenise, and it is the action of
     the current start condition. *)
@@ -19,3 +19,25 @@ Theorem C10_wrap_continues : forall sp st nxt more,
   snd (fst (sm_step sp st)) = [].
 Proof. exact wrap_continues. Qed.
 Print Assumptions C10_wrap_continues.
+
+(** Which <<EOF>> rule a start condition gets (parse.y over sceof[], modelled by [eof_assign]; the
+    oracle of the stream checks takes the assignment from this function): the first rule in source
+    order that covers the condition ... *)
+Theorem C10_eof_rule_is_the_first_covering : forall (A : Type) (rules : list (option (list N) * A)) sc,
+  eof_assign rules sc = option_map snd (find (fun r => eof_covers (fst r) sc) rules).
+Proof. exact FlexV.EofAssign.eof_assign_first. Qed.
+Print Assumptions C10_eof_rule_is_the_first_covering.
+
+(** ... so an unqualified <<EOF>> rule applies to exactly the start conditions lacking their own. *)
+Theorem C10_unqualified_eof_applies_to_exactly_the_conditions_lacking_their_own :
+  forall (A : Type) (pre : list (option (list N) * A)) act post sc,
+  eof_assign (pre ++ (None, act) :: post) sc =
+  match eof_assign pre sc with Some a => Some a | None => Some act end.
+Proof. exact FlexV.EofAssign.eof_unqualified_exact. Qed.
+Print Assumptions C10_unqualified_eof_applies_to_exactly_the_conditions_lacking_their_own.
+
+(** Without an unqualified rule a condition that no scope lists keeps the default action. *)
+Theorem C10_unlisted_condition_keeps_the_default : forall (A : Type) (rules : list (option (list N) * A)) sc,
+  Forall (fun r => exists l, fst r = Some l /\ ~ In sc l) rules -> eof_assign rules sc = None.
+Proof. exact FlexV.EofAssign.eof_unlisted_default. Qed.
+Print Assumptions C10_unlisted_condition_keeps_the_default.
